@@ -306,6 +306,15 @@ def import_websocket():
     install()
     if REPO not in sys.path:
         sys.path.insert(0, REPO)
+    if os.environ.get("WSVERIF_NO_SSL") == "1" and "websocket" not in sys.modules:
+        # an interpreter built without the ssl module (the library supports that for ws://): `import ssl` fails while the library is
+        # being imported - and only then; the harness keeps its own reference
+        real = sys.modules.get("ssl")
+        sys.modules["ssl"] = None
+        try:
+            import websocket  # noqa
+        finally:
+            sys.modules["ssl"] = real
     import websocket  # noqa
 
     f = os.path.realpath(websocket.__file__)
